@@ -1,9 +1,674 @@
-"""Concrete side: rebuilds real objects from a counter-model and runs the REAL function (filled in incrementally)."""
+"""Concrete side of a refutation.
+
+1. `extract_scenario` (runs in the verifying process, where the z3 model lives): walks the PRE-state heap from the
+   parameters of the function under proof and writes the object graph of the counter-model as JSON.
+2. `replay_scenario` (runs in a fresh interpreter: `python -m pyvc.concrete <replay.json>`): rebuilds REAL objects
+   (real classes of /repo, `object.__new__` + attribute assignment, Mock for what the model does not constrain), calls
+   the REAL function and evaluates the refuted contract clause natively on the result (the same contract text, read
+   with the concrete vocabulary below).  `reproduced: true` means the real code violates the clause on that input.
+"""
+import copy
+import fractions
+import importlib
+import itertools
+import json
+import os
+import subprocess
+import sys
+
+VERIF = os.path.dirname(os.path.dirname(os.path.abspath(__file__)))
+MAX_ITEMS = 6
+
+
+# =====================================================================================================================
+# 1. extraction (needs z3 + the engine)
+# =====================================================================================================================
+class Extractor:
+    def __init__(self, eng, model):
+        import z3
+        from . import core
+        self.z3, self.core, self.eng, self.m = z3, core, eng, model
+        self.heap = eng.old_heap if eng.old_heap is not None else eng.heap
+        self.objects = {}
+        self.strs = {}
+        self._str_universe()
+
+    def ev(self, t):
+        return self.m.eval(t, model_completion=True)
+
+    def _str_universe(self):
+        core = self.core
+        try:
+            uni = list(self.m.get_universe(core.Str) or [])
+        except Exception:
+            uni = []
+        names = {}
+        names[str(self.ev(core.STR_EMPTY))] = ''
+        for lit, c in self.eng.str_lits.items():
+            names.setdefault(str(self.ev(c)), lit)
+        self.none_str = str(self.ev(core.STR_NONE))
+        # remaining elements: names consistent with the rank order used for string comparison
+        rest = [u for u in uni if str(u) not in names and str(u) != self.none_str]
+        try:
+            rest.sort(key=lambda u: self.ev(core.str_rank(u)).as_long())
+        except Exception:
+            pass
+        for i, u in enumerate(rest):
+            names[str(u)] = f'id{i:02d}'
+        self.str_names = names
+        self.universe = uni
+
+    def string(self, term):
+        v = str(self.ev(term))
+        if v == self.none_str:
+            return None
+        if v not in self.str_names:
+            self.str_names[v] = f'idx{len(self.str_names):02d}'
+        return self.str_names[v]
+
+    def scalar(self, term, ty):
+        core, z3 = self.core, self.z3
+        if isinstance(ty, core.TOpt):
+            s = term.sort()
+            if s == core.Ref:
+                return self.value(self.eng.wrap(term, ty.t)) if str(self.ev(term)) != str(self.ev(core.NULL)) else {'none': True}
+            if s == core.Str:
+                st = self.string(term)
+                return {'none': True} if st is None else {'str': st}
+            if z3.is_true(self.ev(s.recognizer(0)(term))):
+                return {'none': True}
+            return self.scalar(s.accessor(1, 0)(term), ty.t)
+        v = self.ev(term)
+        if ty == core.INT:
+            return {'int': v.as_long()}
+        if ty == core.BOOL:
+            return {'bool': z3.is_true(v)}
+        if ty == core.REAL:
+            try:
+                fr = v.as_fraction()
+                return {'real': float(fr)}
+            except Exception:
+                return {'real': 0.0}
+        if ty == core.STR:
+            st = self.string(term)
+            return {'none': True} if st is None else {'str': st}
+        if isinstance(ty, core.TEnum):
+            info = self.eng.ts.enum_info(ty.name)
+            code = v.as_long()
+            if not info['is_enum']:
+                return {'int': code}
+            for n, c, _ in info['members']:
+                if c == code:
+                    return {'enum': [ty.name, n]}
+            return {'enum': [ty.name, info['members'][0][0]]}
+        if isinstance(ty, core.TTuple):
+            s = term.sort()
+            return {'tuple': [self.typed(s.accessor(0, i)(term), t) for i, t in enumerate(ty.ts)]}
+        return {'unknown': str(v)}
+
+    def typed(self, term, ty):
+        core = self.core
+        if core.is_ref_type(ty) and not isinstance(ty, core.TOpt):
+            return self.value(self.eng.wrap(term, ty))
+        return self.scalar(term, ty)
+
+    def value(self, v):
+        core = self.core
+        if isinstance(v, core.SV):
+            return self.scalar(v.t, v.ty)
+        if isinstance(v, core.HeapVal):
+            rid = str(self.ev(v.ref))
+            if rid == str(self.ev(core.NULL)):
+                return {'none': True}
+            if rid not in self.objects:
+                self.objects[rid] = {'kind': 'pending'}
+                self.objects[rid] = self.obj(v)
+            return {'ref': rid}
+        if isinstance(v, tuple):
+            return {'tuple': [self.value(x) for x in v]}
+        if isinstance(v, core.EnumMember):
+            return {'enum': [v.cls, v.name]}
+        if v is None:
+            return {'none': True}
+        if isinstance(v, bool):
+            return {'bool': v}
+        if isinstance(v, int):
+            return {'int': v}
+        if isinstance(v, float):
+            return {'real': v}
+        if isinstance(v, str):
+            return {'str': v}
+        return {'unknown': repr(v)[:60]}
+
+    def keys_of(self, has_row, ksort, kty):
+        """members of a set / keys of a dict given the characteristic array row"""
+        core, z3 = self.core, self.z3
+        out = []
+        if ksort == core.Str:
+            cands = list(self.universe)
+        elif ksort == core.Ref:
+            try:
+                cands = list(self.m.get_universe(core.Ref) or [])
+            except Exception:
+                cands = []
+        elif ksort == z3.IntSort():
+            cands = [z3.IntVal(i) for i in range(-2, 12)]
+            if isinstance(kty, core.TEnum):
+                cands = [z3.IntVal(c) for _, c, _ in self.eng.ts.enum_info(kty.name)['members']]
+        else:
+            cands = []
+        for c in cands:
+            if z3.is_true(self.ev(has_row[c])):
+                out.append(c)
+            if len(out) >= MAX_ITEMS:
+                break
+        return out
+
+    def obj(self, v):
+        core, z3, eng = self.core, self.z3, self.eng
+        H = self.heap
+        pinned = eng.pin(v, H)
+        if isinstance(v, core.ObjV):
+            fields = {}
+            cls = v.cls
+            names = set(H.arr) | set(eng.heap.arr)
+            for nme in sorted(names):
+                if not nme.startswith('F:'):
+                    continue
+                _, fname, sortname = nme.split(':', 2)
+                ty = eng.ts.field_type(cls, fname)
+                if ty is None or ty == 'logger' or ty == core.ANY:
+                    continue
+                if cls in eng.ct.classes and not (eng.ct.is_field(cls, fname) or (cls, fname) in eng.ts.shapes.FIELD_TYPES
+                                                  or ('*', fname) in eng.ts.shapes.FIELD_TYPES):
+                    continue
+                try:
+                    if str(core.sort_of(ty)) != sortname:
+                        continue
+                    a = H.get(nme)
+                    fields[fname] = self.typed(a[v.ref], ty)
+                except Exception:
+                    continue
+            ci = eng.ct.classes.get(cls)
+            return {'kind': 'obj', 'cls': cls, 'module': ci.module if ci else None, 'fields': fields}
+        if isinstance(v, core.ListV):
+            n = self.ev(eng.list_len(pinned)).as_long()
+            n = max(0, min(n, MAX_ITEMS))
+            _, da = eng.list_data(pinned)
+            return {'kind': 'list', 'items': [self.typed(da[v.ref][i], v.ety) for i in range(n)]}
+        if isinstance(v, core.SetV):
+            if v.ety == core.ANY:
+                return {'kind': 'set', 'items': []}
+            row = eng.set_arr(pinned)[1][v.ref]
+            ks = self.keys_of(row, core.sort_of(v.ety), v.ety)
+            return {'kind': 'set', 'items': [self.typed(k, v.ety) for k in ks]}
+        if isinstance(v, core.DictV):
+            row = eng.dict_has(pinned)[1][v.ref]
+            ks = self.keys_of(row, core.sort_of(v.kty), v.kty)
+            val = eng.dict_val(pinned)[1][v.ref]
+            return {'kind': 'dict', 'items': [[self.typed(k, v.kty), self.typed(val[k], v.vty)] for k in ks]}
+        if isinstance(v, core.RecV):
+            items = {}
+            for key, ty in eng.ts.shapes.REC_KEYS.items():
+                hn = f'R.has.{key}'
+                if hn not in H.arr and hn not in eng.heap.arr:
+                    continue
+                if z3.is_true(self.ev(H.get(hn, z3.ArraySort(core.Ref, z3.BoolSort()))[v.ref])):
+                    a, _, _ = eng.rec_field(key, H)
+                    items[key] = self.typed(a[v.ref], ty)
+            return {'kind': 'rec', 'items': items}
+        return {'kind': 'unknown'}
+
+
+def extract_scenario(eng, model, vars_):
+    ex = Extractor(eng, model)
+    params = {k: ex.value(v) for k, v in vars_.items()}
+    externals = []
+    for name, term in getattr(eng, 'external_results', []):
+        try:
+            externals.append([name, ex.scalar(term.t, term.ty) if hasattr(term, 't') else ex.value(term)])
+        except Exception:
+            externals.append([name, {'unknown': True}])
+    return {'params': params, 'objects': ex.objects, 'externals': externals,
+            'strings': sorted(set(ex.str_names.values()) - {''})}
+
+
+# =====================================================================================================================
+# 2. replay on the real classes (no z3 needed)
+# =====================================================================================================================
+class Universe:
+    strings = []
+    ints = list(range(-2, 8))
+    objects = []
+    fresh_ids = set()
+    clock = 0.0
+    effects = []
+
+
+U = Universe()
+
+
+def _domain(d):
+    if d is str:
+        return list(U.strings) + ['~other~']
+    if d is int:
+        return list(U.ints)
+    if d is bool:
+        return [False, True]
+    if d is float:
+        return [float(i) for i in U.ints]
+    if isinstance(d, type):
+        import enum
+        if issubclass(d, enum.Enum):
+            return list(d)
+        return [o for o in U.objects if isinstance(o, d)]
+    if isinstance(d, dict):
+        return list(d.keys())
+    return list(d)
+
+
+def forall(*args):
+    *doms, lam = args
+    n = lam.__code__.co_argcount
+    if len(doms) == 1 and n > 1:
+        doms = doms * n
+    return all(lam(*xs) for xs in itertools.product(*[_domain(d) for d in doms]))
+
+
+def exists(*args):
+    *doms, lam = args
+    n = lam.__code__.co_argcount
+    if len(doms) == 1 and n > 1:
+        doms = doms * n
+    return any(lam(*xs) for xs in itertools.product(*[_domain(d) for d in doms]))
+
+
+def implies(a, b):
+    return (not a) or bool(b)
+
+
+def iff(a, b):
+    return bool(a) == bool(b)
+
+
+def ite(c, a, b):
+    return a if c else b
+
+
+def card(s):
+    return len(s)
+
+
+def rank(s):
+    return s
+
+
+def keys(d):
+    return list(d.keys())
+
+
+def clock():
+    return U.clock
+
+
+def was_fresh(o):
+    return id(o) in U.fresh_ids or id(o) not in U.pre_ids
+
+
+def is_alloc(o):
+    return True
+
+
+def no_effect(*names):
+    if not names:
+        return not U.effects
+    return not any(e[0] in names for e in U.effects)
+
+
+def count_effects(*names):
+    return sum(1 for e in U.effects if e[0] in names)
+
+
+def effect_at(name, k=0):
+    sel = [e[1] for e in U.effects if e[0] == name]
+    return tuple(sel[k]) if k < len(sel) else None
+
+
+def contract(*a, **k):
+    return lambda cls: cls
+
+
+external = contract
+
+
+def invariant(cls_name):
+    def deco(fn):
+        INVARIANTS.setdefault(cls_name, []).append(fn)
+        return fn
+    return deco
+
+
+def lemma(**kw):
+    return lambda fn: fn
+
+
+INVARIANTS = {}
+
+
+def inv(obj):
+    return all(fn(obj) for c in type(obj).__mro__ for fn in INVARIANTS.get(c.__name__, []))
+
+
+class _Names(dict):
+    """globals of a contract module read natively: repo enums / constants resolve without import"""
+    MODULES = ['supvisors.ttypes', 'supervisor.states', 'supvisors.utils', 'supervisor.xmlrpc', 'supvisors.process',
+               'supvisors.application', 'supvisors.instancestatus', 'supvisors.commander', 'supvisors.strategy',
+               'supvisors.statemodes', 'supvisors.statemachine', 'supvisors.context', 'supvisors.options',
+               'supvisors.statscompiler', 'supvisors.sparser', 'supvisors.rpcinterface', 'supvisors.listener',
+               'supvisors.internal_com.mapper', 'supvisors.internal_com.supervisorproxy']
+
+    def __missing__(self, k):
+        for m in self.MODULES:
+            try:
+                mod = importlib.import_module(m)
+            except Exception:
+                continue
+            if hasattr(mod, k):
+                return getattr(mod, k)
+        import builtins
+        if hasattr(builtins, k):
+            return getattr(builtins, k)
+        raise NameError(k)
+
+
+def load_contract_namespace(path):
+    ns = _Names()
+    for k in ('forall', 'exists', 'implies', 'iff', 'ite', 'card', 'rank', 'keys', 'clock', 'was_fresh', 'is_alloc',
+              'no_effect', 'count_effects', 'effect_at', 'contract', 'external', 'invariant', 'lemma', 'inv'):
+        ns[k] = globals()[k]
+    ns['field'] = ns['contents'] = ns['whole'] = lambda *a: None
+    ns['everything'] = lambda: None
+    src = open(path).read().replace('from pyvc.spec import *', '')
+    exec(compile(src, path, 'exec'), ns)
+    return ns
+
+
+class Builder:
+    def __init__(self, scn):
+        self.scn = scn
+        self.objs = {}
+
+    def value(self, j):
+        if 'none' in j:
+            return None
+        if 'int' in j:
+            return j['int']
+        if 'bool' in j:
+            return j['bool']
+        if 'real' in j:
+            return j['real']
+        if 'str' in j:
+            return j['str']
+        if 'enum' in j:
+            cls, name = j['enum']
+            return getattr(_Names()[cls], name)
+        if 'tuple' in j:
+            return tuple(self.value(x) for x in j['tuple'])
+        if 'ref' in j:
+            return self.ref(j['ref'])
+        from unittest.mock import Mock
+        return Mock()
+
+    def ref(self, rid):
+        if rid in self.objs:
+            return self.objs[rid]
+        from unittest.mock import Mock, MagicMock
+        o = self.scn['objects'].get(rid, {'kind': 'unknown'})
+        k = o['kind']
+        if k == 'obj':
+            cls = None
+            if o.get('module') and not o['module'].startswith('supervisor.'):
+                try:
+                    cls = getattr(importlib.import_module('supvisors.' + o['module']), o['cls'])
+                except Exception:
+                    cls = None
+            if cls is None or not o['fields']:
+                inst = MagicMock(name=o['cls'])
+                self.objs[rid] = inst
+                for f, v in o['fields'].items():
+                    setattr(inst, f, self.value(v))
+                return inst
+            inst = object.__new__(cls)
+            self.objs[rid] = inst
+            for f, v in o['fields'].items():
+                try:
+                    object.__setattr__(inst, f, self.value(v))
+                except Exception:
+                    pass
+            if o['cls'] == 'Supvisors' or 'logger' not in o['fields']:
+                try:
+                    if not hasattr(inst, 'logger'):
+                        object.__setattr__(inst, 'logger', Mock(level=0))
+                except Exception:
+                    pass
+            # anything the model does not constrain is a Mock (assumed callees, transport, Supervisor internals)
+            return _Lenient.wrap(inst)
+        if k == 'list':
+            out = []
+            self.objs[rid] = out
+            out.extend(self.value(x) for x in o['items'])
+            return out
+        if k == 'set':
+            out = set()
+            self.objs[rid] = out
+            out.update(self.value(x) for x in o['items'])
+            return out
+        if k == 'dict':
+            out = {}
+            self.objs[rid] = out
+            for kk, vv in o['items']:
+                out[self.value(kk)] = self.value(vv)
+            return out
+        if k == 'rec':
+            out = {}
+            self.objs[rid] = out
+            for kk, vv in o['items'].items():
+                out[kk] = self.value(vv)
+            return out
+        m = MagicMock()
+        self.objs[rid] = m
+        return m
+
+
+class _Lenient:
+    """missing attributes of a rebuilt real object (fields the symbolic run never touched) read as Mocks"""
+
+    @staticmethod
+    def wrap(inst):
+        cls = type(inst)
+        if getattr(cls, '_pyvc_lenient', False):
+            return inst
+        from unittest.mock import MagicMock
+
+        def __getattr__(self, name):
+            if name.startswith('__'):
+                raise AttributeError(name)
+            m = MagicMock(name=f'{type(self).__name__}.{name}')
+            if name == 'logger':
+                m.level = 0
+            object.__setattr__(self, name, m)
+            return m
+        try:
+            sub = type(cls.__name__, (cls,), {'__getattr__': __getattr__, '_pyvc_lenient': True})
+            inst.__class__ = sub
+        except TypeError:
+            pass
+        return inst
+
+
+def replay_scenario(doc):
+    """-> dict(reproduced=bool|None, outcome=..., detail=...)"""
+    import warnings
+    warnings.filterwarnings('ignore')
+    from unittest.mock import patch
+    scn = doc.get('scenario')
+    if not scn:
+        return {'reproduced': None, 'detail': 'no scenario (model) attached to this refutation'}
+    target, name = doc['function'], doc['obligation']
+    modname, rest = target.split(':')
+    kind = 'plain'
+    if rest.endswith(']'):
+        rest, kind = rest[:-1].split('[')
+    mod = importlib.import_module('supvisors.' + modname)
+    b = Builder(scn)
+    params = {k: b.value(v) for k, v in scn['params'].items()}
+    U.strings = list(scn.get('strings', []))
+    U.objects = [o for o in b.objs.values()]
+    U.pre_ids = {id(o) for o in b.objs.values()}
+    U.fresh_ids = set()
+    U.effects = []
+    ext = [e for e in scn.get('externals', [])]
+    mono = [e[1].get('real', 0.0) for e in ext if e[0] == 'time.monotonic']
+    walls = [e[1].get('real', 0.0) for e in ext if e[0] == 'time.time']
+    U.clock = min(mono) if mono else 0.0
+
+    def seq(vals, default):
+        it = iter(vals)
+        last = [default]
+
+        def f():
+            try:
+                last[0] = next(it)
+            except StopIteration:
+                pass
+            return last[0]
+        return f
+    if '.' in rest:
+        cname, fname = rest.split('.')
+        cls = getattr(mod, cname)
+        attr = cls.__dict__.get(fname)
+        if kind == 'getter':
+            fn = attr.fget
+        elif kind == 'setter':
+            fn = attr.fset
+        elif isinstance(attr, staticmethod):
+            fn = attr.__func__
+        else:
+            fn = attr
+    else:
+        fn = getattr(mod, rest)
+    cpath = doc.get('contract_file')
+    ns = load_contract_namespace(os.path.join(VERIF, cpath)) if cpath else None
+    old_copy = copy.deepcopy(params)
+
+    class Old:
+        pass
+    old = Old()
+    for k, v in old_copy.items():
+        setattr(old, k, v)
+    outcome, result, exc = 'normal', None, None
+    with patch('time.monotonic', side_effect=seq(mono, U.clock)), patch('time.time', side_effect=seq(walls, 0.0)):
+        try:
+            result = fn(**params)
+        except Exception as e:   # the real code raised
+            outcome, exc = 'raised', e
+    rep = {'outcome': outcome, 'exception': f'{type(exc).__name__}: {exc}' if exc else None,
+           'result': repr(result)[:200]}
+    if name.startswith('safe:'):
+        want = name[5:].split('@')[0].replace('(raised)', '')
+        got = type(exc).__name__ if exc else None
+        rep['reproduced'] = bool(exc is not None and (got == want or want in [c.__name__ for c in type(exc).__mro__])
+                                 and want not in doc.get('raises', []))
+        rep['detail'] = f'expected {want} to escape the real function; got {got}'
+        return rep
+    if (name.startswith('post:') or name.startswith('exc:')) and ns is not None:
+        clause = name.split(':', 1)[1].split('/')[0]
+        con_cls = ns.get(doc.get('contract_class'))
+        cfn = getattr(con_cls, clause, None) if con_cls else None
+        if cfn is None:
+            rep['reproduced'] = None
+            rep['detail'] = f'clause {clause} not found'
+            return rep
+        if name.startswith('post:') and outcome != 'normal':
+            rep['reproduced'] = None
+            rep['detail'] = 'the real function raised on this input'
+            return rep
+        import inspect
+        bind = dict(params)
+        bind.update({'result': result, 'old': old, 'exc': exc})
+        U.objects = U.objects + [result] if result is not None else U.objects
+        args = {p: bind[p] for p in inspect.signature(cfn).parameters}
+        try:
+            holds = bool(cfn(**args))
+            rep['reproduced'] = not holds
+            rep['detail'] = f'clause {clause} evaluated natively on the real post-state: {holds}'
+        except Exception as e:
+            rep['reproduced'] = None
+            rep['detail'] = f'native evaluation of {clause} failed: {type(e).__name__}: {e}'
+        return rep
+    rep['reproduced'] = None
+    rep['detail'] = 'obligation kind has no concrete reading (invariant / frame / call-site precondition)'
+    return rep
 
 
 def try_replay(prop, function, variant, name, obls, world):
-    return None
+    """called by the driver for a refuted obligation: replay every instance that carries a scenario"""
+    con = world.reg.contracts.get(function)
+    for o in obls:
+        scn = o.get('model')
+        if not isinstance(scn, dict) or 'params' not in scn:
+            continue
+        doc = {'function': function, 'variant': variant, 'obligation': name, 'scenario': scn,
+               'contract_file': os.path.relpath(world.ct.modules[con.module].path, VERIF) if con else None,
+               'contract_class': con.name if con else None, 'raises': list(con.raises) if con else []}
+        rep = run_subprocess(doc)
+        rep['scenario'] = scn
+        rep['doc'] = {k: doc[k] for k in ('contract_file', 'contract_class', 'raises')}
+        if rep.get('reproduced'):
+            return rep
+        last = rep
+    return locals().get('last')
+
+
+def run_subprocess(doc):
+    import tempfile
+    with tempfile.NamedTemporaryFile('w', suffix='.json', delete=False) as f:
+        json.dump(doc, f, default=str)
+        path = f.name
+    try:
+        env = dict(os.environ)
+        if os.environ.get('VERIF_REPO'):    # scratch copy of the repository under test (mutation self-test)
+            env['PYTHONPATH'] = os.environ['VERIF_REPO'] + os.pathsep + env.get('PYTHONPATH', '')
+        p = subprocess.run([sys.executable, '-W', 'ignore', '-m', 'pyvc.concrete', path], cwd=VERIF, capture_output=True,
+                           text=True, timeout=120, env=env)
+        for line in reversed(p.stdout.strip().splitlines()):
+            if line.startswith('{'):
+                return json.loads(line)
+        return {'reproduced': None, 'detail': 'replay process gave no result: ' + (p.stderr or p.stdout)[-400:]}
+    except Exception as e:
+        return {'reproduced': None, 'detail': f'replay process failed: {e}'}
+    finally:
+        os.unlink(path)
 
 
 def replay_doc(doc):
-    return doc.get('replay') or {'reproduced': False, 'note': 'no concrete replay recorded for this obligation'}
+    """./check <id> --replay <file>"""
+    rep = doc.get('replay')
+    if not rep or 'scenario' not in rep:
+        return {'reproduced': False, 'note': 'no concrete scenario recorded for this obligation',
+                'verifier_output': doc.get('verifier_output')}
+    d = {'function': doc['function'], 'variant': doc.get('variant'), 'obligation': doc['obligation'],
+         'scenario': rep['scenario']}
+    d.update(rep.get('doc', {}))
+    return run_subprocess(d)
+
+
+if __name__ == '__main__':
+    sys.path.insert(0, VERIF)
+    d = json.load(open(sys.argv[1]))
+    try:
+        out = replay_scenario(d)
+    except Exception as e:
+        import traceback
+        out = {'reproduced': None, 'detail': f'replay harness error: {type(e).__name__}: {e}', 'trace': traceback.format_exc()[-800:]}
+    print(json.dumps(out, default=str))
